@@ -585,7 +585,47 @@ def _inline_call(call, helper, is_method):
     uses_value = any(isinstance(x, ast.Name) and x.id == retvar for st in new for x in ast.walk(st))
     if uses_value and not always:
         prelude.append(ast.Assign(targets=[ast.Name(id=retvar, ctx=ast.Store())], value=ast.Constant(value=None), lineno=call.lineno))
+    _last_locals[0] = set(rename.values())
     return prelude + new, (ast.Name(id=retvar, ctx=ast.Load()) if uses_value else ast.Constant(value=None))
+
+
+_last_locals = [set()]
+
+
+def _fuse_return(st, pre, val):
+    """`__ret = e; T = __ret` -> `T = e`; and when e is (a tuple of) helper locals and T (a tuple of) names that the inlined body does
+    not mention, the helper locals take the target names and the copy disappears: `Vb, Vn = self._bases(m)` un-extracts to the
+    statements that computed Vb and Vn.  Returns (pre, val, drop_statement)."""
+    if not (isinstance(val, ast.Name) and pre and isinstance(pre[-1], ast.Assign) and len(pre[-1].targets) == 1
+            and isinstance(pre[-1].targets[0], ast.Name) and pre[-1].targets[0].id == val.id):
+        return pre, val, False
+    nstores = sum(1 for x in pre for y in ast.walk(x) if isinstance(y, ast.Name) and y.id == val.id)
+    if nstores != 1:
+        return pre, val, False
+    expr, pre = pre[-1].value, pre[:-1]
+    if not (isinstance(st, ast.Assign) and len(st.targets) == 1):
+        return pre, expr, False
+    tg = st.targets[0]
+    if isinstance(tg, ast.Tuple) and isinstance(expr, ast.Tuple) and len(tg.elts) == len(expr.elts):
+        pairs = list(zip(expr.elts, tg.elts))
+    elif isinstance(tg, ast.Name) and isinstance(expr, ast.Name):
+        pairs = [(expr, tg)]
+    else:
+        return pre, expr, False
+    if not all(isinstance(a, ast.Name) and isinstance(b, ast.Name) and a.id in _last_locals[0] for a, b in pairs):
+        return pre, expr, False
+    src, dst = [a.id for a, _ in pairs], [b.id for _, b in pairs]
+    mentioned = {y.id for x in pre for y in ast.walk(x) if isinstance(y, ast.Name)}
+    if len(set(src)) != len(src) or len(set(dst)) != len(dst) or set(dst) & mentioned:
+        return pre, expr, False
+    m = dict(zip(src, dst))
+    for x in pre:
+        for y in ast.walk(x):
+            if isinstance(y, ast.Name) and y.id in m:
+                y.id = m[y.id]
+            elif isinstance(y, ast.ExceptHandler) and y.name in m:
+                y.name = m[y.name]
+    return pre, expr, True
 
 
 def inline_new_helpers(tree, rel):
@@ -652,9 +692,12 @@ def inline_new_helpers(tree, rel):
                                         if not hasattr(y, "lineno"):
                                             y.lineno = getattr(st, "lineno", 1)
                                             y.col_offset = 0
-                                if isinstance(st, ast.Expr):
-                                    block[i:i + 1] = pre
-                                    i += len(pre)
+                                drop = False
+                                if not isinstance(st, ast.Expr):
+                                    pre, val, drop = _fuse_return(st, pre, val)
+                                if isinstance(st, ast.Expr) or drop:
+                                    block[i:i + 1] = pre or [ast.copy_location(ast.Pass(), st)]
+                                    i += max(len(pre), 1)
                                 else:
                                     if isinstance(st, ast.If):
                                         if st.test is target_call:
